@@ -95,3 +95,50 @@ Proof.
   { destruct (tx_hyps _ _ _ E) as (st0 & H & _); [vm_compute; reflexivity|vm_compute; reflexivity|]. eauto. }
   split; [vm_compute; reflexivity|]. split; vm_compute; reflexivity.
 Qed.
+
+(** WHY (b), (c) NEED [noshare_b].  "r" (clean_session = false) holds the plain subscription "t"
+    AND the shared subscription "$share/g/t", both QoS 1: both read log 0, and the window and the
+    retransmission map are keyed by the log alone.  Three publishes: the plain request forwards
+    offsets 0, 1, 2 with packet ids 1, 2, 3; the shared one forwards 0, 1, 2 with packet ids 4, 5, 6.
+    r acknowledges 1, 2, 3 — every forward of the plain subscription — and is disconnected: the
+    window holds the three SHARED forwards, the retransmission cursor of log 0 is offset 0, and the
+    PLAIN request is rewound to it (end marker: resume point 0).  After the reconnect the plain
+    key gets 0, 1, 2 AGAIN, although all three were acknowledged. *)
+Definition SH_T : str := [36; 115; 104; 97; 114; 101; 47; 103; 47; 116].    (* "$share/g/t" *)
+Definition sx_pre : list rop :=
+  [tx_pconn 114; wx_conn 112; OpPush 0 (PSubscribe 1 [([116], 1); (SH_T, 1)] None); OpData 0;
+   OpConsume; OpConsume; OpConsume; OpDrain 0; OpDrain 1;
+   OpPush 1 (wx_pub 0 1); OpPush 1 (wx_pub 0 2); OpPush 1 (wx_pub 0 3); OpData 1;
+   OpConsume; OpConsume; OpConsume; OpConsume; OpConsume; OpDrain 0;
+   OpPush 0 (PPubAck 1); OpPush 0 (PPubAck 2); OpPush 0 (PPubAck 3); OpData 0].
+Definition sx_ops : list (list oracle * rop) :=
+  wx_plain (sx_pre ++ [OpDisconnect 0; OpDrain 0; tx_pconn 114; OpConsume; OpConsume; OpConsume; OpDrain 2]).
+(** the window of connection [id]: (packet id, log, offset) *)
+Definition window_of (st : rstate) (id : N) : list (N * N * option N) :=
+  match slab_get (r_obufs st) id with
+  | Some o => map (fun e : N * N * option cursor => (fst (fst e), snd (fst e), option_map snd (snd e))) (o_inflight o)
+  | None => []
+  end.
+Definition fwd_pk (a : kev) : option (N * N) := match a with KFwd off p => Some (off, p_pkid p) | _ => None end.
+
+Example share_rewind_witness :
+  let st := tx_st sx_ops in let tr := tx_tr sx_ops in
+  tx_run sx_ops = Ok (st, tr) /\
+  (exists st0, run_hyps tx_cfg st0 sx_ops st tr /\ always_b (noshare_b 0 0) st0 sx_ops = false) /\
+  (* the plain key's forwards and their packet ids *)
+  map fwd_pk (ktrace (0, [116], 0) tr) = [None; Some (0, 1); Some (1, 2); Some (2, 3)] /\
+  (* just before the Disconnect: they are all acknowledged; the window holds the shared forwards *)
+  window_of (tx_st (wx_plain sx_pre)) 0 = [(4, 0, Some 0); (5, 0, Some 1); (6, 0, Some 2)] /\
+  ends_of tr = [(0, 0, [0; 1; 2])] /\
+  map evshort tr = [(0, 0, (2, 0, 0)); (0, 0, (0, 0, 0)); (0, 0, (0, 1, 0)); (0, 0, (0, 2, 0));
+                    (0, 0, (4, 0, 3));
+                    (0, 2, (3, 0, 0)); (0, 2, (0, 0, 0)); (0, 2, (0, 1, 0)); (0, 2, (0, 2, 0))].
+Proof.
+  cbv zeta. assert (E : tx_run sx_ops = Ok (tx_st sx_ops, tx_tr sx_ops)) by (vm_compute; reflexivity).
+  split; [exact E|]. split.
+  { destruct (tx_hyps _ _ _ E) as (st0 & H & _); [vm_compute; reflexivity|vm_compute; reflexivity|].
+    exists st0. split; [exact H|].
+    assert (Hi : init tx_cfg = Ok st0) by (destruct H as (_ & _ & Hi & _); exact Hi).
+    assert (E0 : st0 = force (init tx_cfg)) by (now rewrite Hi). rewrite E0. vm_compute. reflexivity. }
+  split; [vm_compute; reflexivity|]. split; [vm_compute; reflexivity|]. split; vm_compute; reflexivity.
+Qed.
